@@ -136,6 +136,10 @@ def debug_unit(name, probes=True):
         print('         props', fo['props'], '|', fo['message'])
         if '-v' in sys.argv:
             print(fo['rendered'])
+    if '-v' in sys.argv and r.status == 'inconclusive':
+        for d in getattr(r, 'all_diags', []):
+            if d['level'] == 'error':
+                print(d['rendered'])
     slow = sorted(((v['ms'], k) for k, v in getattr(r, 'fn_times', {}).items()), reverse=True)[:5]
     print('  slowest fns (ms):', slow)
     return 0 if r.status == 'ok' else (1 if r.status == 'failed' else 2)
